@@ -102,7 +102,12 @@ impl<T: 'static> LocalKey<T> {
         }
 
         ExecutionState::with(|state| {
-            if let Ok(value) = state.current().local(self)? {
+            // The destructor of a thread-local may run while an abandoned execution is torn down,
+            // when no task is current any more: its thread is gone, so is every one of its thread-locals.
+            let Some(current) = state.try_current() else {
+                return Some(Err(AccessError));
+            };
+            if let Ok(value) = current.local(self)? {
                 // Safety: the `ExecutionState` outlives any thread, including the caller, and so
                 // it's safe to give the caller the lifetime it's asking for here.
                 Some(Ok(unsafe { extend_lt(value) }))
